@@ -7,22 +7,29 @@ from ..parse_streams import gen_cases, decode_case, parse_result, outcome_class,
 from ..runner import Stream
 
 ID = "C01"
-AREAS = ["parse"]
+AREAS = ["parse", "errctx"]
 RULE = ("random command trees (vp/gen_cmd.py: depth <= 2(3), every setting toggled independently, groups, relations, "
         "flag subcommands, external subcommands, hyphen values, terminators, low-index multiples, deliberately "
         "questionable configurations) x argv rendered from invocations with 0-2 mutations (delete/duplicate/garble/"
         "swap/insert a boundary token) plus a malformed stream of pure boundary tokens (--, -, '', -x, --l=, =, "
         "prefixes, subcommand names, -1e, non-UTF-8 bytes) plus an ignore_errors stream.  A case is non-trivial when "
         "the configuration is accepted by the library's own checks (not INVALID) and argv has at least one token "
-        "after the program name; distinct = distinct case text.")
+        "after the program name; distinct = distinct case text.  Stream errctx: the same generators, mutation-heavy "
+        "(p_mutate 0.8) so that most lines end in an error; non-trivial = the outcome is an error.")
 TRUSTED = [
     "Coq 8.16.1 kernel (coqc); no native_compute; theorems C01_* are 'Closed under the global context'",
     "extraction: ExtrOcamlBasic only, no Extract Constant; OCaml driver ocaml/parse_driver.ml + common_parse/{spec,show}.ml",
     "correspondence: vp/gen_cmd.py generators, harness/src/modes/parse.rs (builds clap::Command from the spec, "
     "catch_unwind around build/parse/render), comparison of the outcome class (ok / err / help-or-version / panic / invalid)",
     "modelled not verified: Rust core (Vec, String, str::from_utf8, integer ops), strsim::jaro (the choice between "
-    "InvalidSubcommand and UnknownArgument is outside this property's projection), error rendering "
-    "(RichFormatter is exercised by the harness on every error, not modelled)",
+    "InvalidSubcommand and UnknownArgument is outside this property's projection); <str as Debug>::fmt (used by the "
+    "error formatter's Escape) is a parameter of the rendering model",
+    "translators/parse_sites.py (regex extraction of panic-shaped sites per function, of ErrorKind::as_str, of the "
+    "ContextKind enum and of what each error constructor attaches); 13 rows of the site table are justified by "
+    "reasoning local to the Rust function (pinned list: C01_sites_reasoned_rows)",
+    "stream errctx: harness/src/modes/c01.rs reads the private message form off the derived Debug of the error; "
+    "ocaml/errctx_driver.ml; the suggestion context kinds, PriorArg's variant and InvalidArg-vs-InvalidSubcommand for "
+    "ArgumentConflict / unknown-token errors are outside the comparison",
 ]
 ASSUMPTIONS = [
     "the model's `valid` (Valid.v: assert_app/assert_arg/_verify_positionals) is the library's configuration gate; its "
@@ -34,7 +41,10 @@ ASSUMPTIONS = [
 ]
 TECHNIQUE = ("Coq proof (state invariant of the parse loop: every unwrap/expect/unreachable!/debug_assert site of "
              "parser.rs/arg_matcher.rs on the path is dead for commands accepted by the validity gate; fuel = tree depth "
-             "suffices; ignore_errors swallows every stderr-class error) + extracted-model/implementation correspondence")
+             "suffices; ignore_errors swallows every stderr-class error; panic-site table regenerated from the Rust source "
+             "and proved equal to the model's, in both directions; model of the error value, its constructors and "
+             "RichFormatter with 'rendering never panics and gets its context') + extracted-model/implementation "
+             "correspondence (outcome class; for errors also context kinds, value variants, message form)")
 LEVEL_TEXT = ("Machine-checked theorems (Coq 8.16, closed under the global context) about the executable model of "
               "Parser::{parse, parse_long_arg, parse_short_arg, parse_opt_value, react, resolve_pending, push_arg_values, "
               "verify_num_args, start_custom_arg, add_env, add_defaults, get_matches_with} and Command::_do_parse in which "
@@ -42,10 +52,23 @@ LEVEL_TEXT = ("Machine-checked theorems (Coq 8.16, closed under the global conte
               "run.  The model is tied to clap_builder by running the extracted model and the real crate (debug build, "
               "catch_unwind, Error::render on every error) on the same generated command trees and argument vectors on "
               "every check; the direct oracle (no panic, no abort/timeout, ignore_errors => Ok unless help/version) runs "
-              "on the implementation's output alone.")
+              "on the implementation's output alone.  Round 2: (a) the panic sites of parser.rs, arg_matcher.rs, "
+              "matched_arg.rs, validator.rs and the parse-reachable functions of command.rs are extracted from the source on "
+              "every run as (file, fn, kind, ordinal) and proved to be exactly the keys of a model-side table whose rows are "
+              "model panic numbers (dead by the main theorem), proved statements, or pinned prose justifications; conversely "
+              "every panic outcome of the model, for any definition, carries a number of that table; (b) the error value, the 19 "
+              "constructors of error/mod.rs the parser uses, Error::render and RichFormatter::format_error/write_dynamic_context "
+              "are modelled with their unwraps visible: rendering never panics for any error value, every error the parser model "
+              "returns (any definition, any input) is built by a modelled constructor and carries the context its message needs; "
+              "the constructor/context tables are regenerated from error/*.rs and the context of every error is compared with the "
+              "implementation (stream errctx); (c) two further refutation witnesses for classes with short flag-subcommands.")
 LEVEL_NOTE = ("Trusted: Coq kernel, extraction, OCaml driver, Rust harness, generators. Recorded finding: nested short "
               "flag-subcommands whose intermediate flag consumes a number of indices other than one make the "
-              "flag_subcmd_skip debug assertion fail (debug builds panic, release builds reject the line).")
+              "flag_subcmd_skip debug assertion fail (debug builds panic, release builds reject the line); round 2 found two "
+              "more mechanisms reaching the same assertion with one-index flags only (stale flag_subcmd_at across clusters; "
+              "skip left unconsumed when the re-read cluster is taken as a hyphen value): C01_no_panic_*_refuted. The main "
+              "no-panic theorem therefore stays stated for definitions without short flag-subcommands. Not compared: error text, "
+              "suggestion context kinds.")
 
 KNOWN_SKIP_MSG = "tracking of `flag_subcmd_skip` is off"
 
@@ -82,6 +105,63 @@ def nontrivial(case, impl):
 
 def project(r):
     return outcome_class(r)
+
+
+# ---------------------------------------------------------------- stream errctx: the error value behind "can be rendered"
+SUGGESTION_KINDS = {"SuggestedValue", "SuggestedArg", "SuggestedSubcommand", "SuggestedCommand", "Suggested"}
+UNKNOWN_TOKEN = {"UnknownArgument", "InvalidSubcommand", "UnknownArgument|InvalidSubcommand"}
+
+
+def split_errctx(r):
+    base, _, extra = (r or "").partition(" ;; ")
+    return base, extra
+
+
+def canon_alt(kindclass, alt):
+    """one `msg=.. ctx=.. rich=..` group -> canonical text.  Outside the comparison: the suggestion kinds (they depend on
+    strsim::jaro, which the parser model does not compute); the variant of PriorArg's value (None / String / Strings by
+    the number of conflicting arguments, which the model's error does not carry); and, for the two kind classes in which
+    one kind is built by several constructors the model cannot tell apart (ArgumentConflict: argument_conflict /
+    subcommand_conflict; the unknown-token triage), whether the subject is stored as InvalidArg or InvalidSubcommand."""
+    f = dict(x.split("=", 1) for x in alt.split(" ") if "=" in x)
+    items = []
+    for it in [x for x in f.get("ctx", "").split(",") if x]:
+        k, _, sh = it.partition(":")
+        if k in SUGGESTION_KINDS:
+            continue
+        if k == "PriorArg":
+            sh = "*"
+        if kindclass in ("unknown-token", "ArgumentConflict") and k in ("InvalidArg", "InvalidSubcommand"):
+            k = "Subject"
+        items.append(k + ":" + sh)
+    return "msg=%s ctx=%s rich=%s" % (f.get("msg"), ",".join(items), f.get("rich"))
+
+
+def project_errctx(r):
+    base, extra = split_errctx(r)
+    cls = outcome_class(base)
+    if not extra:
+        return cls
+    kind = parse_result(base).get("ekind", "?")
+    kindclass = "unknown-token" if kind in UNKNOWN_TOKEN else kind
+    alts = sorted({canon_alt(kindclass, a) for a in extra.split(" / ")})
+    if len(alts) != 1:
+        return "%s %s AMBIGUOUS %s" % (cls, kindclass, " / ".join(alts))
+    return "%s %s %s" % (cls, kindclass, alts[0])
+
+
+def oracle_errctx(case, impl):
+    base, extra = split_errctx(impl)
+    r = oracle(case, base)
+    if r:
+        return r
+    if "msg=unreadable" in extra:
+        return "unexpected harness result: %s" % extra[:200]
+    return None
+
+
+def nontrivial_errctx(case, impl):
+    return bool(impl) and " ;; " in impl
 
 
 def boundary_cases(rng, n, prof_kw=None):
@@ -165,8 +245,16 @@ def streams(tier, rng):
     ign = gen_cases(rng, n_ign, {"ignore_errors": 1.0, "invalid": 0.0}, p_mutate=0.7, safe_p=0.3)
     mk = lambda name, cases: Stream(name, cases, oracle=oracle, area="parse", project=project,  # noqa: E731
                                     nontrivial=nontrivial, describe=describe(cases, name))
+    # the error value: same generators, mutation-heavy so that most lines end in an error
+    n_err = 30000 if big else 3000
+    errc = (gen_cases(rng, n_err // 2, {"depth": 3} if big else None, p_mutate=0.8, safe_p=0.2, mode="errctx")
+            + gen_cases(rng, n_err // 2, {"hyphen": 0.3, "flag_subs": 0.4, "settings": 0.25, "require_equals": 0.4,
+                                          "terminators": 0.3, "groups": 0.6, "relations": 0.5, "infer": 0.4,
+                                          "external": 0.2}, p_mutate=0.8, safe_p=0.2, mode="errctx"))
+    errctx = Stream("errctx", errc, oracle=oracle_errctx, area="errctx", project=project_errctx,
+                    nontrivial=nontrivial_errctx, describe=describe(errc, "errctx"))
     return [mk("parse-random", rand), mk("parse-adversarial", adversarial), mk("parse-boundary", bound),
-            mk("parse-ignore-errors", ign)]
+            mk("parse-ignore-errors", ign), errctx]
 
 
 def classify_known(stream, case, impl, failure):
